@@ -188,7 +188,8 @@ def discharge(obligations, facts, timeout_ms=20000, seed=0, second=None, jobs=No
         f = getattr(ob, "forced", None)
         if f:
             r = (f[0], None, f[1], 0.0)
-        out.append({"result": r[0], "model": r[1], "reason": r[2], "secs": round(r[3], 3), "backend": "z3-%s" % z3.get_version_string(), "smt_bytes": len(t), "nfacts": ob.nfacts})
+        out.append({"result": r[0], "model": r[1], "reason": r[2], "secs": round(r[3], 3), "backend": "z3-%s" % z3.get_version_string(), "smt_bytes": len(t), "nfacts": ob.nfacts,
+                    "_smt2": t if r[0] not in ("unsat",) else None})
     if second:
         t2 = min(timeout_ms, 15000)
         cmds = {"cvc5": (["/usr/bin/cvc5", "--tlimit=%d" % t2], t2 / 1000 + 5), "z3-4.8": (["/usr/bin/z3", "-T:%d" % (t2 // 1000)], t2 / 1000 + 5)}
@@ -222,3 +223,9 @@ def check_sat(formulas, facts, timeout_ms=10000):
     ex = pool()
     res = list(ex.map(_check_z3, [(t, timeout_ms, 0, False) for t in texts]))
     return [r[0] for r in res]
+
+
+def retry_alone(texts, timeout_ms, seed):
+    """Second attempt for undecided baseline obligations: few at a time, generous budget, default configuration first."""
+    ex = pool()
+    return list(ex.map(_check_z3, [(t, timeout_ms, seed + 17, True) for t in texts]))
